@@ -469,3 +469,66 @@ def scope_coverage(P: Program, rep: Report, rule: str, only: Optional[Set[str]] 
                 walk(ch, iw)
         walk(f.node, False)
     return n
+
+
+# ---------------------------------------------------------------------------------------------------------------
+# RT.6  the SQL builder every handler relies on: what is added is what is built
+BUILDER = "vtlengine.duckdb_transpiler.Transpiler.sql_builder.SQLBuilder"
+
+
+def builder_contract(P: Program, rep: Report, rule: str, parts: str = "whgj") -> None:
+    """The real SQLBuilder class is instantiated inside the evaluator (dataclass field defaults read from source; every method is the
+    repository's) and driven with marker arguments.  Contract, as the handlers use it:
+      w  every where() / where_all() condition is in the WHERE clause, conjoined with AND (sub adds one condition per fixed identifier)
+      h  every having() condition is in the HAVING clause - also when no GROUP BY column was added (an aggregation without grouping, or
+         `group except` naming every identifier, still has a having / the `HAVING COUNT(*) > 0` guard of empty inputs)
+      g  every group_by() column is in GROUP BY
+      j  join(…, join_type=<token>) writes the token's own keyword, the ON condition and the alias"""
+    from sa import structmodel as sm
+    from sa.e6 import Raised, Unmodelled
+    M = sm.Model(P)
+    fb = P.lookup_method(P.classes[BUILDER], "build")
+
+    def drive(calls: List[Tuple[str, tuple, dict]]) -> str:
+        b = sm.instantiate(M, BUILDER)
+        try:
+            for name, args, kw in calls:
+                sm.call_method(M, b, name, *args, **kw)
+            return str(sm.call_method(M, b, "build"))
+        except (Unmodelled, Raised) as e:
+            raise AnalysisError(f"{rule}: SQLBuilder outside the evaluator's language: {e}")
+
+    def clause(sql: str, kw: str) -> Optional[str]:
+        import re as _re
+        m = _re.search(r"\b" + kw + r"\b(.*?)(?=\bWHERE\b|\bGROUP BY\b|\bHAVING\b|\bORDER BY\b|\bLIMIT\b|$)", sql)
+        return m.group(1).strip() if m else None
+    base = [("select", ("⟦a⟧",), {}), ("from_table", ("⟦T⟧", "t"), {})]
+    if "w" in parts:
+        sql = drive(base + [("where", ("⟦c1⟧",), {}), ("where", ("⟦c2⟧",), {}), ("where_all", (["⟦c3⟧", "⟦c4⟧"],), {})])
+        got = clause(sql, "WHERE")
+        rep.instance(rule, "builder/where-accumulates", sample={"sql": sql})
+        if got is None or sorted(x.strip() for x in got.split(" AND ")) != ["⟦c1⟧", "⟦c2⟧", "⟦c3⟧", "⟦c4⟧"]:
+            rep.add(fnd(rule, "builder/where-accumulates", fb, fb.node.lineno,
+                        f"where(c1), where(c2), where_all([c3, c4]) builds `{sql}`: the WHERE clause must be the conjunction of ALL four conditions - a clause that adds one condition per "
+                        f"item (sub with two fixed identifiers) otherwise filters on the last one only"))
+    if "h" in parts:
+        for label, extra in (("with-group-by", [("group_by", ("⟦g⟧",), {})]), ("without-group-by", [])):
+            sql = drive(base + extra + [("having", ("⟦h1⟧",), {}), ("having", ("⟦h2⟧",), {})])
+            got = clause(sql, "HAVING")
+            rep.instance(rule, f"builder/having/{label}", sample={"sql": sql})
+            if got is None or sorted(x.strip() for x in got.split(" AND ")) != ["⟦h1⟧", "⟦h2⟧"]:
+                rep.add(fnd(rule, f"builder/having/{label}", fb, fb.node.lineno,
+                            f"having(h1), having(h2) {label.replace('-', ' ')} builds `{sql}`: both conditions must reach the HAVING clause - an aggregation whose resolved GROUP BY list is empty "
+                            f"(`group except` naming every identifier, or no grouping at all) otherwise ignores its having condition and the empty-input guard"))
+    if "g" in parts:
+        sql = drive(base + [("group_by", ("⟦g1⟧", "⟦g2⟧"), {}), ("group_by", ("⟦g3⟧",), {})])
+        got = clause(sql, "GROUP BY")
+        rep.instance(rule, "builder/group-by", sample={"sql": sql})
+        if got is None or [x.strip() for x in got.split(",")] != ["⟦g1⟧", "⟦g2⟧", "⟦g3⟧"]:
+            rep.add(fnd(rule, "builder/group-by", fb, fb.node.lineno, f"group_by(g1, g2), group_by(g3) builds `{sql}`: GROUP BY must list g1, g2, g3"))
+    if "j" in parts:
+        for tok, kw in (("inner_join", "INNER"), ("left_join", "LEFT"), ("full_join", "FULL")):
+            sql = drive(base + [("join", ("⟦U⟧", "u"), {"on": "⟦on⟧", "join_type": tok})])
+            rep.instance(rule, f"builder/join/{tok}", sample={"sql": sql})
+            if f"{kw} JOIN ⟦U⟧ AS u ON ⟦on⟧" not in sql:
+                rep.add(fnd(rule, f"builder/join/{tok}", fb, fb.node.lineno, f"join(U, u, on=…, join_type='{tok}') builds `{sql}`; expected `{kw} JOIN ⟦U⟧ AS u ON ⟦on⟧`"))
